@@ -56,8 +56,14 @@ namespace {
    const char8_t* const linkage_words[] = { u8"C++", u8"C", u8"Java" };
    const char8_t* const cc_words[] = { u8"", u8"fastcall" };
 
+   // The second (or transient) Lexicon of an execution is not byte-for-byte the twin of the first: it starts by interning a word of its
+   // own, so that whatever it writes lands at other offsets than the first one's (two Lexicons sharing storage they should not
+   // share overwrite each other with DIFFERENT bytes, not with the same ones).
+   bool other_world = false;
+   struct Salted { explicit Salted(ipr::impl::Lexicon& l) { if (other_world) { (void) l.get_identifier(u8"the-other-lexicon-was-here"); (void) l.get_string(u8"0123456789-other"); } } };
    struct World {
       ipr::impl::Lexicon lex;
+      Salted salted{ lex };
       ipr::impl::Translation_unit unit{ lex };
       // operand pools (grow with the history)
       std::vector<const ipr::Type*> ty;        std::vector<int> ty_mid;
@@ -443,7 +449,7 @@ namespace {
       {
          World w;
          std::unique_ptr<World> second;
-         if (twin == 1) second = std::make_unique<World>();
+         if (twin == 1) { other_world = true; second = std::make_unique<World>(); other_world = false; }
          std::string where;
          auto other_failed = [&](World& o, const char* who) {
             if (not o.failed or w.failed) return;
@@ -462,7 +468,9 @@ namespace {
                ok = not w.failed;
             }
             if (ok and twin == 2) {
+               other_world = true;
                World t;
+               other_world = false;
                for (std::size_t j = 0; j <= i and not t.failed; ++j) { auto b = alphabet(t, breadth); if (h[j] >= int(b.size())) break; t.apply(b[h[j]]); rep.count("transitions"); }
                other_failed(t, " [observed on a transient Lexicon that repeated the history so far]");
                ok = not w.failed;
